@@ -6,7 +6,7 @@ git -C /repo apply --check "$d/patch.diff" || { echo "PATCH DOES NOT APPLY"; exi
 git -C /repo apply "$d/patch.diff"
 for p in "$@"; do
   echo "=== $p on $(basename $d)"
-  VERIF_EVIDENCE_DIR=/tmp/seed-evidence /verif/scripts/check $p quick 2>&1 | grep -E "VIOLATION|ANALYSIS-ERROR|new violations|\[R" | head -20
+  VERIF_EVIDENCE_DIR=/tmp/seed-evidence /verif/scripts/check $p quick 2>&1 | grep -v "^KNOWN-FINDING" | grep -E "VIOLATION|ANALYSIS-ERROR|new violations|\[R" | head -20
 done
 git -C /repo checkout -- .
 git -C /repo status --short | head -3
